@@ -5,7 +5,7 @@ from typing import TYPE_CHECKING
 import networkx as nx
 
 from pipefunc._pipefunc import PipeFunc
-from pipefunc._utils import at_least_tuple
+from pipefunc._utils import _is_equal, at_least_tuple
 from pipefunc.typing import (
     Array,
     NoAnnotation,
@@ -30,7 +30,10 @@ def validate_consistent_defaults(
                 continue
             if arg not in arg_defaults:
                 arg_defaults[arg] = default_value
-            elif default_value != arg_defaults[arg]:
+            elif default_value is not arg_defaults[arg] and not _is_equal(
+                default_value,
+                arg_defaults[arg],
+            ):  # `!=` is ambiguous for arrays
                 msg = (
                     f"Inconsistent default values for argument '{arg}' in"
                     " functions. Please make sure the shared input arguments have"
